@@ -138,7 +138,9 @@ class Run:
             nonlocal expected
             if invalid == 'name':
                 expected = BAD_NAME
-                return rng.choice(['nope:x', rng.choice(apps) + ':nope', 'nope:*'])
+                # (a bare application name is the namespec of a process that bears the name of its group: unknown here)
+                return rng.choice(['nope:x', rng.choice(apps) + ':nope', 'nope:*', rng.choice(apps),
+                                   rng.choice(namespecs).split(':')[1]])
             return rng.choice(namespecs + [rng.choice(apps) + ':*'])
 
         def strategy_arg():
